@@ -167,7 +167,9 @@ class C07(Prop):
             'quotes, backslashes, control and non-ASCII characters), expressions with nesting and odd whitespace, '
             'inverse transform pairs, unparsable expressions inside otherwise valid PATCHes, persisted flags and value '
             'writes, device name/display name/passwords, disabled slave devices with cached attributes and offline '
-            '(provisioning) edits; a case is non-trivial when a restart happened with >= 1 persisted writable port '
+            '(provisioning) edits of device attributes and webhooks parameters; before a restart, optionally (a) ONE storage '
+            'write of the save loop fails (OSError injected by a subclass of the real persist driver) and the hub gets a few '
+            'save-loop periods, (b) the same attribute is edited twice in a row with no other write afterwards; a case is non-trivial when a restart happened with >= 1 persisted writable port '
             'holding a value and >= 1 non-default attribute; distinct = distinct canonical final documents')
     CORRESPONDENCE = ('Config.step/boot (setAttr, prepareForSave, loadFromData, vports add/remove/init, device save/load, '
                       'slave record save/load) <-> core/ports.py load_from_data/prepare_for_save/save_loop, core/vports.py, '
@@ -182,7 +184,9 @@ class C07(Prop):
                    'the store returns what was stored (C06); expression printing is a parse fixpoint (C03); stored '
                    'expressions are acyclic (C04)',
                    'transform pairs are mutually inverse on the values used; values are integers or booleans',
-                   'slave devices are disabled (no network); enabled slaves are C12/C13',
+                   'slave devices are disabled (no network); enabled slaves and slave ports are C12/C13',
+                   'a transient storage error is a single failing replace/insert of the save loop; the property\'s "followed '
+                   'by a save" is met by the save loop retrying the still-pending port',
                    'peripheral-provided ports are not covered']
 
     # ------------------------------------------------------------------------------------------ life-cycle
